@@ -43,7 +43,8 @@ def argsOfJson (j : Json) : GenArgs :=
     versionPath := getStr j "versionPath", locations := getStrList j "locations",
     sqlNoEnv := getBoolD j "sqlNoEnv", tzOk := (getBool j "tzOk").getD true,
     encodable := (getBool j "encodable").getD true,
-    fileTaken := (getBool j "fileTaken").getD false }
+    fileTaken := (getBool j "fileTaken").getD false,
+    file := getStr j "file" }
 
 /-- fold of `generate_revision` calls over the incrementally updated map; an error leaves the map as it was -/
 def runCalls : LMap → List GenArgs → List Json
@@ -52,6 +53,16 @@ def runCalls : LMap → List GenArgs → List Json
     match genCall m a with
     | .error e => errJ e :: runCalls m rest
     | .ok (r, m') => obj [("ok", obj [("rev", revJson r), ("view", viewJson (view m'))])] :: runCalls m' rest
+
+/-- the same over the directory state (`Model.Gen.stepCallF`): the files present decide whether a call's own
+    path is taken; the answer of each call is what `genCall` says for the call as seen in that directory -/
+def runCallsF : DirState → List GenArgs → List Json
+  | _, [] => []
+  | st, a :: rest =>
+    let ans := match genCall st.map (a.inDir st.files) with
+      | .error e => errJ e
+      | .ok (r, m') => obj [("ok", obj [("rev", revJson r), ("view", viewJson (view m'))])]
+    ans :: runCallsF (stepCallF st a) rest
 
 def runAdds : LMap → List Rev → List Json
   | _, [] => []
@@ -98,7 +109,8 @@ def handle (op : String) (j : Json) : Option Json :=
   | "gen.seq" =>
     match load (histOfJson j) (optsOfJson j) with
     | .error e => some (obj [("loadErr", Json.str e.name)])
-    | .ok m => some (obj [("results", Json.arr (runCalls m ((getArr j "calls").map argsOfJson)).toArray)])
+    | .ok m => some (obj [("results", Json.arr (runCallsF { hist := histOfJson j, map := m, files := getStrList j "files" }
+        ((getArr j "calls").map argsOfJson)).toArray)])
   | "gen.add" =>
     match load (histOfJson j) (optsOfJson j) with
     | .error e => some (obj [("loadErr", Json.str e.name)])
